@@ -39,6 +39,9 @@ pub struct RunSpec {
     pub est_len: u64,
     /// liveness bound on the fair tail (decisions); 0 = none
     pub tail_bound: u64,
+    /// replay only: index in the decision list at which the original run entered its fair tail
+    #[serde(default)]
+    pub tail_from: Option<usize>,
 }
 
 pub trait Monitor {
@@ -87,6 +90,9 @@ pub struct RunResult {
     pub log_hash: u64,
     pub steps: u64,
     pub tail_steps: u64,
+    /// index in `decisions` at which the fair tail began
+    #[serde(default)]
+    pub tail_from: Option<usize>,
     pub sim_ms: u64,
     pub counts: BTreeMap<String, u64>,
     pub probes: BTreeMap<String, u64>,
@@ -110,6 +116,7 @@ pub fn execute(spec: &RunSpec, monitor: &mut dyn Monitor, keep_log: bool) -> Run
     let mut end = EndState::StepCap;
     let mut failure = None;
     let mut tail_start: Option<u64> = None;
+    let mut tail_from: Option<usize> = None;
     let mut ihash = crate::rng::Fnv::default();
     let mut ooo = 0u64;
     let tau0 = world.tau;
@@ -137,6 +144,14 @@ pub fn execute(spec: &RunSpec, monitor: &mut dyn Monitor, keep_log: bool) -> Run
             sched.next(&world, &client)
         };
         if sched.in_tail && tail_start.is_none() && !from_replay {
+            tail_start = Some(world.steps);
+            tail_from = Some(decisions.len());
+        }
+        if from_replay
+            && tail_start.is_none()
+            && let Some(tf) = spec.tail_from
+            && decisions.len() >= tf
+        {
             tail_start = Some(world.steps);
         }
         let d = match next {
@@ -233,6 +248,7 @@ pub fn execute(spec: &RunSpec, monitor: &mut dyn Monitor, keep_log: bool) -> Run
         log_hash: sh.hash.0,
         steps: world.steps,
         tail_steps,
+        tail_from: tail_from.or(spec.tail_from),
         sim_ms: world.tau - tau0,
         counts,
         probes: monitor.probes(),
